@@ -421,7 +421,7 @@ def _runinfo_check(self, act, exp, real_runs):
         stem = p.name[:-len(ext)] if ext and p.name.endswith(ext) else p.name     # the key (config names may hold dots)
         label = f'{m.slug(d)}#{d}'
         try:
-            info = yaml.safe_load((p.parent / f'{stem}.run_info.yaml').read_text())
+            info = yaml.load((p.parent / f'{stem}.run_info.yaml').read_text(), yaml.Loader)      # (records may hold tuples ...)
         except Exception as ex:  # noqa
             mm.append(('runinfo', f'run info of {label} unreadable: {type(ex).__name__}: {ex}'))
             continue
@@ -438,7 +438,7 @@ def _runinfo_check(self, act, exp, real_runs):
                             mm.append(('runinfo', f'Task.run_info of {label} (object of {t.fullname}) returns the record of '
                                                   f"run {[x.get('run') for x in (api.get('log') or [])] if isinstance(api, dict) else api}"
                                                   f", the stored record is of run {[x.get('run') for x in (info.get('log') or [])]}"))
-        want_log = [{'rec': 0, 'run': e['seq']}, {'rec': 1, 'run': e['seq']}]
+        want_log = [{'rec': 0, 'run': e['seq'], 'pair': (e['seq'], 'x'), 7: 'seven'}, {'rec': 1, 'run': e['seq']}]
         if info.get('log') != want_log:
             mm.append(('runinfo', f"run info of {label} has records {info.get('log')}, the run that produced the stored "
                                   f'result added {want_log}'))
@@ -468,6 +468,11 @@ def _runinfo_check(self, act, exp, real_runs):
         if m.kind and want_inputs and not m.name_mode and got_inputs != want_inputs:     # (name mode records no input keys)
             mm.append(('runinfo', f'run info of {label} records input keys {info.get("input_tasks")}, the inputs are stored '
                                   f'under {want_inputs}'))
+        cfgnames = {m.res[r][n]['cfgname'] for (r, n), dv in m.did.items() if dv == d}
+        got_cfg = str((info.get('config') or {}).get('name', '')).split('/')[0]
+        if not m.name_mode and got_cfg not in cfgnames:
+            mm.append(('runinfo', f"run info of {label} names the config {got_cfg!r}, the computation is declared by "
+                                  f'{sorted(cfgnames)}'))
         namespaces = {m.res[r][n]['ns'] for (r, n), dv in m.did.items() if dv == d}
         if (info.get('config') or {}).get('namespace') not in namespaces:
             mm.append(('runinfo', f"run info of {label} names namespace {(info.get('config') or {}).get('namespace')!r}, "
